@@ -34,6 +34,20 @@ def run(repo: Repo, tier: str, res: CheckResult, seed: int = 0) -> None:
     res.count("CTOR.programs", n, 300)
     ctor_sibling(repo, res)
     introspected_defaults_kept(repo, res)
+    # the generated loader is memoised per retort: the key has to contain the shape (constructor, defaults, parameters) -- C11's
+    # audit of dependencies wrapped into an always-equal object, reported here with its consequence for C08
+    from ..values import Resolver as _Resolver
+    from . import c11 as _c11
+    _sub = CheckResult("C11")
+    _c11.cached_call_sites(repo, _Resolver(repo), _sub)
+    res.evaluated("ctor:loader-memo-key-contains-shape", True)
+    for _f in _sub.findings:
+        if _f.rule == "KEY.always-equal" and "/morphing/model/loader_provider" in _f.file:
+            res.add(Finding("C08", "CTOR.loader-memo-ignores-shape", _f.file, _f.qualname, _f.construct,
+                            "the memo key of the generated model loader ignores an input of the generator: two distinct model classes "
+                            "that agree on the rest of the key (same qualified name, same fields -- classes made by one factory "
+                            "function, a redefined model) share one loader, so the second is built by the constructor and with the "
+                            "defaults of the first. " + _f.message[:160], _f.line))
     res.assumptions = list(ASSUMPTIONS)
 
 
